@@ -237,9 +237,27 @@ def _rbody(body, ind):
 def render(stmts, ind=0):
     out = []
     pad = '  ' * ind
+    prev = None
     for s in stmts:
-        out.append(pad + rs(s, ind) + '\n')
+        t = rs(s, ind)
+        if isinstance(s, Call) and s.bracket and _open_ended(prev):
+            # the language has no statement separator: `set "Z" zone 1` followed by `[f 2]` is the range 1..[f 2];
+            # the statement meant here is written without the optional brackets
+            t = t[1:-1]
+        out.append(pad + t + '\n')
+        prev = s
     return ''.join(out)
+
+
+def _open_ended(s):
+    """Does the statement end where one more value could follow (a range written with one bound, a bare return)?"""
+    if isinstance(s, Return):
+        return s.e is None
+    if isinstance(s, Stage):
+        return True
+    if isinstance(s, Action) and isinstance(s.operands, list):
+        return any(getattr(o, 'zone', None) or getattr(o, 'matrix', None) for o in s.operands)
+    return False
 
 
 def rs(s, ind=0):
